@@ -516,7 +516,49 @@ FAULT_CORPUS = [
 # ------------------------------------------------------------------ checking
 
 def model_lines(case):
+    if is_fault(case):
+        return fault_model_lines(case)
     return [{"op": "reset", "seg": case["seg"]}, {"op": "local", "xs": case["xs"]}]
+
+
+def fault_model_lines(case):
+    """Model/DaskFail.lean covers linear segments of map(inc|dbl) and accumulate(add, start>=0) over naturals with failing
+    functions and no rejecting consumer; other fault cases are decided by the model-free oracle only."""
+    if case.get("reject") or any(x < 0 for x in case["xs"]):
+        return []
+    stages = []
+    for k in case["seg"]:
+        fail = [k["fail"]["mod"], k["fail"]["rem"]] if k.get("fail") else None
+        if k["k"] == "map" and k["f"] in ("inc", "dbl"):
+            stages.append({"k": "map", "f": k["f"], "fail": fail})
+        elif k["k"] == "accumulate" and k["f"] == "add" and isinstance(k.get("start"), int) and k["start"] >= 0:
+            stages.append({"k": "acc", "start": k["start"], "fail": fail})
+        else:
+            return []
+    return [{"op": "fault", "stages": stages, "xs": case["xs"]}]
+
+
+def gen_linear_fault_case(rng, mode):
+    """1-3 stages of map(inc|dbl) / accumulate(add, start), any of them failing on a residue class of its argument sum;
+    includes failing tasks at or above an accumulate (the recorded divergence, which the model reproduces)."""
+    seg = []
+    for i in range(rng.choice([1, 2, 2, 3])):
+        if rng.random() < 0.45:
+            k = {"k": "accumulate", "f": "add", "start": rng.choice([0, 0, 1, 5])}
+        else:
+            k = {"k": "map", "f": rng.choice(["inc", "dbl"])}
+        seg.append(k)
+    for k in rng.sample(seg, rng.choice([1, 1, 2]) if len(seg) > 1 else 1):
+        m = rng.choice([2, 3, 4, 5, 7])
+        k["fail"] = {"mod": m, "rem": rng.randrange(m)}
+    return {"mode": mode, "seg": seg, "xs": [rng.randint(0, 9) for _ in range(rng.choice([3, 4, 5, 6, 8]))],
+            "salt": rng.randrange(50), "delays": [rng.choice([0, 0, 1, 2, 3]) for _ in range(rng.choice([2, 3, 4]))]}
+
+
+def poisoned_by_failure(case):
+    """a stateful node at or below the first failing task: on Dask it sees the errored future, locally it never sees the element"""
+    first = next((i for i, k in enumerate(case["seg"]) if k.get("fail")), None)
+    return first is not None and any(k["k"].startswith("accumulate") for k in case["seg"][first:])
 
 
 def fan_in_before_gather(case):
@@ -534,8 +576,30 @@ def key(x):
     return common.json.dumps(x, sort_keys=True)
 
 
-def check_fault_case(ctx, case, loc, dsk):
+def check_fault_model(ctx, case, answers, loc, dsk):
+    """correspondence with Model/DaskFail.lean: outcomes and delivered values of BOTH real pipelines against lrun / drun"""
+    a = answers[0]
+    if "bad-op" in a:
+        raise common.HarnessError("Dask driver rejected %r: %r" % (fault_model_lines(case), a))
+    ctx.count("fault:compared-with-model")
+    ok = True
+    for name, got, want in (("local", loc, a["local"]), ("dask", dsk, a["dask"])):
+        w_out = ["ok" if v is not None else "TaskFailed" for v in want]
+        w_val = [v for v in want if v is not None]
+        if got["outcomes"] != w_out or got["out"] != w_val:
+            ok = False
+            ctx.disagreement("failing tasks, %s pipeline: outcomes %r results %r, model (DaskFail.%s) outcomes %r results %r"
+                             % (name, got["outcomes"], got["out"], "lrun" if name == "local" else "drun", w_out, w_val), case)
+    if ok:
+        ctx.coverage["traces_validated_against_impl"] += 1
+        if a["local"] != a["dask"]:
+            ctx.count("fault:model-reproduces-recorded-divergence")
+
+
+def check_fault_case(ctx, case, loc, dsk, answers=None):
     """Model-free oracle for a case with failing tasks / a rejecting consumer."""
+    if answers and not (loc["stuck"] or dsk["stuck"]):
+        check_fault_model(ctx, case, answers, loc, dsk)
     n = len(case["xs"])
     ctx.count("mode:" + case["mode"] + "+fault")
     if case.get("reject"):
@@ -559,7 +623,7 @@ def check_fault_case(ctx, case, loc, dsk):
                     % (k, STUCK_WAIT, dsk["outcomes"], loc["outcomes"]), case, expected=loc["outcomes"], observed=dsk["outcomes"],
                     oracle="an exception only affects the element that caused it; later emits complete as locally")
         return
-    poisoned = any(k["k"].startswith("accumulate") and k.get("fail") for k in case["seg"])
+    poisoned = poisoned_by_failure(case)
     if dsk["outcomes"] != loc["outcomes"]:
         sig = SIG_ACC_POISON if poisoned else "dask:failure:outcomes-differ"
         ctx.failure(sig, "emit outcomes differ: Dask-backed pipeline %r, local pipeline %r%s" % (
@@ -585,7 +649,7 @@ def check_fault_case(ctx, case, loc, dsk):
 
 def check_case(ctx, case, answers, loc, dsk):
     if is_fault(case):
-        return check_fault_case(ctx, case, loc, dsk)
+        return check_fault_case(ctx, case, loc, dsk, answers)
     n = len(case["xs"])
     ctx.count("mode:" + case["mode"])
     for k in case["seg"]:
@@ -670,7 +734,7 @@ def model_selfcheck(ctx):
 
 
 def run(ctx):
-    ctx.audit()
+    ctx.audit(extra_modules=["StreamzVerif.Props.C20Fail"])
     ctx.assumptions += [
         "a future is a value with an arbitrary completion time; the scheduler's choice of completion order is the only cluster behaviour modelled",
         "elements enter scatter and gather one at a time (awaiting producer or buffer before gather) for the unchanged-code theorem; "
@@ -679,9 +743,12 @@ def run(ctx):
         "zip/union occur with a side branch through one map from the same upstream (lock-step); zip's maxsize back-pressure is not reached",
         "user functions are pure and total on the values they receive (ints and nested tuples)",
         "real asyncio loop and real worker threads: completion orders are sampled, not enumerated",
-        "fault cases (failing task / rejecting consumer) are checked by the model-free oracle only; from the first failing task on the "
-        "segment is linear and stateless (map/starmap/zip): a failed task's future entering a stateful node is visible to that node on "
+        "fault cases (failing task / rejecting consumer): model-free oracle; in the generic fault generator the segment is linear and "
+        "stateless (map/starmap/zip) from the first failing task on: a failed task's future entering a stateful node is visible to that node on "
         "Dask and never locally because errors surface at gather (accumulate instance recorded as " + SIG_ACC_POISON + ")",
+        "linear fault cases (map inc/dbl, accumulate add with start, naturals, any stage failing on a residue class) are additionally compared, "
+        "local AND Dask-backed run, with Model/DaskFail.lean (lrun / drun) - including the cases of the recorded divergence, which the model "
+        "reproduces (Props/C20Fail.lean: safe_run_equiv where no stateful node follows a failure, dask_acc_failure_is_permanent otherwise)",
     ]
     model_selfcheck(ctx)
     if ctx.thorough():
@@ -694,9 +761,11 @@ def run(ctx):
     cases += FAULT_CORPUS
     for mode, k in ([("await", 160), ("concurrent", 80)] if ctx.thorough() else [("await", 5), ("concurrent", 3)]):
         cases += [gen_fault_case(ctx.rng, mode) for _ in range(k)]
+    for mode, k in ([("await", 120), ("concurrent", 60)] if ctx.thorough() else [("await", 6), ("concurrent", 3)]):
+        cases += [gen_linear_fault_case(ctx.rng, mode) for _ in range(k)]
     lines, spans = [], []
     for c in cases:
-        ml = [] if is_fault(c) else model_lines(c)       # fault cases: model-free oracle only
+        ml = model_lines(c)       # fault cases outside Model/DaskFail.lean: model-free oracle only
         spans.append((len(lines), len(lines) + len(ml)))
         lines += ml
     answers = common.lean_driver("Dask", lines)
@@ -720,9 +789,10 @@ def run(ctx):
 
 
 def replay(ctx, data):
-    ctx.audit()
+    ctx.audit(extra_modules=["StreamzVerif.Props.C20Fail"])
     case = data["case"]
-    answers = None if is_fault(case) else common.lean_driver("Dask", model_lines(case))
+    ml = model_lines(case)
+    answers = common.lean_driver("Dask", ml) if ml else None
     (loc, dsk), = run_cases([case])
     check_case(ctx, case, answers, loc, dsk)
     ctx.coverage["rule"] = "replay of one recorded case"
